@@ -28,6 +28,12 @@ claims = {
  'C18': dict(engine='seq', cat='model_checking', ref='DESIGN.md §3 C18',
    text="Bounded exhaustive: BITFIELD/BITFIELD_RO GET/SET/INCRBY for every type i1..i64 and u1..u63 x bit offsets 0..16 and #0..#2 (every offset mod 8, spans of 1..9 bytes) x boundary values (0, +-1, min, max, min-1, max+1, +-2^62, +-2^63) x OVERFLOW WRAP/SAT/FAIL, sticky OVERFLOW chains, SETBIT/GETBIT offsets, BITCOUNT and BITPOS for all start/end in -20..20 in BYTE and BIT units, BITOP over operand tuples of every length class - from seven base strings (and, thorough, the states a set of mutators reaches), compared with a big-endian bit-array reference on math/big on reply and on GET/TYPE/EXISTS/PTTL of every key (only addressed bits change, reads change nothing).",
    note=E1_NOTE, tech=E1_TECH),
+ 'C06': dict(engine='seq', cat='model_checking', ref='DESIGN.md §3 C06',
+   text="Bounded exhaustive: the matrix of every command template of the emulator (~300 forms incl. syntactically bad, out-of-range and overflowing ones) x target key of every type (missing, string, list, hash, set), from fixture states with and without TTL, singleton aggregates and the states every generic command / remover reaches from them; compared with the reference model on reply and on the full state (KEYS, DBSIZE, TYPE, value, PTTL of every key): a failed command must leave everything unchanged, an emptied aggregate must be gone. Plus KEYS/SCAN MATCH for all glob patterns of <= 3 symbols over {a,b,*,?,[,],\\,-,^} against a port of Redis' stringmatchlen.",
+   note=E1_NOTE, tech=E1_TECH),
+ 'C07': dict(engine='seq', cat='model_checking', ref='DESIGN.md §3 C07',
+   text="Bounded exhaustive on a virtual clock: the same command x key-type matrix applied 2 ms and 1 ms before the deadline, 1 ms, 2 ms and long after it (objects still stored, never slept for), with mixed expired / live operands and destinations; the model drops a key at its deadline, so every command must treat an expired-but-stored key exactly like a missing one. Plus the complete EXPIRE/PEXPIRE/EXPIREAT/PEXPIREAT x NX/XX/GT/LT x prior-TTL matrix, SET/GETEX expiration options, and the keep/clear rule of every writer, observed through PTTL of every key after every transition.",
+   note=E1_NOTE + " Exact-deadline coincidences (observation at the very millisecond of the deadline, GT/LT ties) are not judged.", tech=E1_TECH),
 }
 pending_reason = "check not built yet (work in progress in this session; see DESIGN.md build order)"
 
